@@ -1246,6 +1246,26 @@ proof fn lemma_con_copy_mono(ts: Seq<TypeNode>, m: Map<TyID, TyID>, m2: Map<TyID
     ensures con_copy(ts, m2, c, d),
 { reveal(con_copy); }
 /// the generics resolved so far are nodes of the graph
+/// the table of type variables only grows: a name keeps the node it was given
+spec fn sn_ext(a: Map<String, TyID>, b: Map<String, TyID>) -> bool { forall|k: String| #[trigger] a.contains_key(k) ==> b.contains_key(k) && b[k] == a[k] }
+/// the parameters resolved so far that are written as a bare type variable `*A` are in the class of the node recorded for A
+spec fn generic_params_joined(ts: Seq<TypeNode>, vs: Seq<TypeVariable>, ps: Seq<(String, usize, Span, ResolverType)>, upto: int, seen: Map<String, TyID>) -> bool {
+    forall|k: int| 0 <= k < upto && k < ps.len() && (#[trigger] ps[k]).3 is Generic
+        ==> seen.contains_key(ps[k].3->Generic_0) && rep0(ts, seen[ps[k].3->Generic_0].0 as int) == rep0(ts, vs[ps[k].1 as int].ty.0 as int)
+}
+proof fn lemma_generic_params_mono(ts_a: Seq<TypeNode>, ts_b: Seq<TypeNode>, vs: Seq<TypeVariable>, ps: Seq<(String, usize, Span, ResolverType)>, upto: int,
+                                   sa: Map<String, TyID>, sb: Map<String, TyID>)
+    requires merges_only(ts_a, ts_b), generic_params_joined(ts_a, vs, ps, upto, sa), sn_ext(sa, sb), sn_ok(sa, ts_a.len() as int),
+        forall|k: int| 0 <= k < ps.len() ==> (#[trigger] ps[k]).1 < vs.len() && (vs[ps[k].1 as int].ty.0 as int) < ts_a.len(),
+    ensures generic_params_joined(ts_b, vs, ps, upto, sb),
+{
+    assert forall|k: int| 0 <= k < upto && k < ps.len() && (#[trigger] ps[k]).3 is Generic
+        implies sb.contains_key(ps[k].3->Generic_0) && rep0(ts_b, sb[ps[k].3->Generic_0].0 as int) == rep0(ts_b, vs[ps[k].1 as int].ty.0 as int) by {
+        let nm = ps[k].3->Generic_0;
+        assert(sa.contains_key(nm));
+        assert(rep0(ts_a, sa[nm].0 as int) == rep0(ts_a, vs[ps[k].1 as int].ty.0 as int));
+    }
+}
 spec fn sn_ok(m: Map<String, TyID>, n: int) -> bool { forall|k: String| #[trigger] m.contains_key(k) ==> (m[k].0 as int) < n }
 /// the constructor (see `head`) of a primitive type annotation
 spec fn prim_head(t: ResolverType) -> Option<int> {
@@ -2874,6 +2894,8 @@ impl TypeChecker {
         ensures final(self).inv2(), final(self).grows(old(self)), r is Ok ==> final(self).valid(r->Ok_0), //# C02,C07 inner_resolve_type.keeps_invariant
             sn_ok(final(seen)@, final(self).types@.len() as int), //# C07 inner_resolve_type.generics_are_nodes
             r is Ok && prim_head(*ty) is Some ==> head(ty_of(final(self).types@, r->Ok_0)) == prim_head(*ty)->Some_0, //# C03 inner_resolve_type.a_primitive_type_annotation_gives_that_type
+            sn_ext(old(seen)@, final(seen)@), //# C03 inner_resolve_type.a_type_variable_keeps_the_node_it_was_given
+            r is Ok && *ty is Generic ==> final(seen)@.contains_key(ty->Generic_0) && final(seen)@[ty->Generic_0] == r->Ok_0, //# C03 inner_resolve_type.a_type_variable_resolves_to_the_node_recorded_under_its_name
             r is Err ==> r->Err_0.len() >= 1, //# C07 inner_resolve_type.an_error_result_is_never_an_empty_list
 //@   endspec
 //@   ghost entry
@@ -2882,25 +2904,25 @@ impl TypeChecker {
         proof { reveal_with_fuel(rt_ok, 2); }
 //@   endghost
 //@   loop 1 binder it
-            invariant self.inv2(), self.grows(old(self)), sn_ok(seen@, self.types@.len() as int), n == self.variables@.len(), self.valid(ty), //# C02,C07 inner_resolve_type.loop1.aux1
+            invariant self.inv2(), self.grows(old(self)), sn_ok(seen@, self.types@.len() as int), sn_ext(old(seen)@, seen@), n == self.variables@.len(), self.valid(ty), //# C02,C07 inner_resolve_type.loop1.aux1
                 ids_below(sub@, self.types@.len() as int), i == it.index@, i <= sub@.len(), //# C07 inner_resolve_type.loop1.aux2
                 it.seq().len() == vars@.len(), forall|k: int| 0 <= k < vars@.len() ==> *(#[trigger] it.seq()[k]) == vars@[k], //# - inner_resolve_type.loop1.aux3
 //@   endloop
 //@   loop 2 binder it
-            invariant self.inv2(), self.grows(old(self)), sn_ok(seen@, self.types@.len() as int), n == self.variables@.len(), //# C02,C07 inner_resolve_type.loop2.aux1
+            invariant self.inv2(), self.grows(old(self)), sn_ok(seen@, self.types@.len() as int), sn_ext(old(seen)@, seen@), n == self.variables@.len(), //# C02,C07 inner_resolve_type.loop2.aux1
                 ids_below(resolved_params@, self.types@.len() as int), //# C07 inner_resolve_type.loop2.aux2
                 it.seq().len() == params@.len(), forall|k: int| 0 <= k < params@.len() ==> *(#[trigger] it.seq()[k]) == params@[k], //# - inner_resolve_type.loop2.aux3
 //@   endloop
 //@   loop 3
-            invariant self.inv2(), self.grows(old(self)), sn_ok(seen@, self.types@.len() as int), n == self.variables@.len(), //# C02,C07 inner_resolve_type.loop3.aux1
+            invariant self.inv2(), self.grows(old(self)), sn_ok(seen@, self.types@.len() as int), sn_ext(old(seen)@, seen@), n == self.variables@.len(), //# C02,C07 inner_resolve_type.loop3.aux1
                 ids_below(params@, self.types@.len() as int), self.valid(ret), //# C07 inner_resolve_type.loop3.aux2
 //@   endloop
 //@   loop 4
-            invariant self.inv2(), self.grows(old(self)), sn_ok(seen@, self.types@.len() as int), n == self.variables@.len(), //# C02,C07 inner_resolve_type.loop4.aux1
+            invariant self.inv2(), self.grows(old(self)), sn_ok(seen@, self.types@.len() as int), sn_ext(old(seen)@, seen@), n == self.variables@.len(), //# C02,C07 inner_resolve_type.loop4.aux1
                 ids_below(params@, self.types@.len() as int), self.valid(ret), self.valid(*var), //# C07 inner_resolve_type.loop4.aux2
 //@   endloop
 //@   loop 5 binder it
-            invariant self.inv2(), self.grows(old(self)), sn_ok(seen@, self.types@.len() as int), n == self.variables@.len(), //# C02,C07 inner_resolve_type.loop5.aux1
+            invariant self.inv2(), self.grows(old(self)), sn_ok(seen@, self.types@.len() as int), sn_ext(old(seen)@, seen@), n == self.variables@.len(), //# C02,C07 inner_resolve_type.loop5.aux1
                 ids_below(resolved_fields@, self.types@.len() as int), //# C07 inner_resolve_type.loop5.aux2
                 it.seq().len() == fields@.len(), forall|k: int| 0 <= k < fields@.len() ==> *(#[trigger] it.seq()[k]) == fields@[k], //# - inner_resolve_type.loop5.aux3
 //@   endloop
@@ -3396,6 +3418,8 @@ impl TypeChecker {
             r is Ok ==> ty_of(final(self).types@, r->Ok_0.0) is Function, //# C03 type_from_function.builds_function_type
             r is Ok ==> ty_of(final(self).types@, r->Ok_0.0)->Function_0.len() == params@.len(), //# C03 type_from_function.arity_is_param_count
             r is Ok ==> (ty_of(final(self).types@, r->Ok_0.0)->Function_2 is Pure <==> pure) && !(ty_of(final(self).types@, r->Ok_0.0)->Function_2 is Undefined), //# C04 type_from_function.purity_from_literal
+            r is Ok && *ret is Generic ==> forall|k: int| 0 <= k < params@.len() && (#[trigger] params@[k]).3 is Generic && params@[k].3->Generic_0 == ret->Generic_0
+                ==> rep0(final(self).types@, r->Ok_0.1.0 as int) == rep0(final(self).types@, final(self).variables@[params@[k].1 as int].ty.0 as int), //# C03 type_from_function.a_type_variable_in_the_return_type_is_the_one_of_the_parameters
             r is Err ==> r->Err_0.len() >= 1, //# C07 type_from_function.an_error_result_is_never_an_empty_list
 //@   endspec
 //@   ghost entry
@@ -3409,7 +3433,21 @@ impl TypeChecker {
                 forall|k: int| 0 <= k < params@.len() ==> *(#[trigger] it.seq()[k]) == params@[k], //# - type_from_function.loop1.aux3
                 args@.len() == it.index@, //# - type_from_function.loop1.aux4
                 forall|k: int| 0 <= k < args@.len() ==> self.valid(#[trigger] args@[k]), //# C07 type_from_function.loop1.aux5
+                generic_params_joined(self.types@, self.variables@, params@, it.index@ as int, seen@), //# C03 type_from_function.loop1.parameters_written_as_a_type_variable_are_in_the_class_of_that_variable
 //@   endloop
+//@   ghost loop-body 1
+            let ghost ts_pb = self.types@; let ghost seen_pb = seen@;
+            proof { lemma_merges_refl(ts_pb); }
+//@   endghost
+//@   ghost loop-end 1
+            proof {
+                lemma_generic_params_mono(ts_pb, self.types@, self.variables@, params@, it.index@ as int, seen_pb, seen@);
+            } //# C03 type_from_function.loop1.joining_step
+//@   endghost
+//@   ghost after-loop 1
+        let ghost ts_pl = self.types@; let ghost seen_pl = seen@;
+        proof { lemma_merges_refl(ts_pl); }
+//@   endghost
 //@   ghost before
 //@| let f = self.push_type(Type::Function(args, ret, purity));
         let ghost nargs = args@.len();
